@@ -167,6 +167,21 @@ CHECKS = {
              'quick run). The theorem is about RESOLVED sentences: which positions the parser / linker connects is C07 / C08 / the correspondence. '
              'must-without-cardinality is modelled as a definition; disjunctive heads (or) are outside the fragment. Known finding F30.',
         design='DESIGN.md §6 C01'),
+    'C02': dict(
+        technique='Lean 4 proof: aggregate literals over sets of distinct tuples in the answer-set semantics of C01, direct reading of '
+                  'resolved aggregate sentences, table theorems over the regenerated aggregate words / symbols; rule-by-rule correspondence; '
+                  'answer-set search with clingo',
+        text='Lean theorems: C02_main (answer sets = models of the direct reading for every stratified specification with aggregate '
+             'constraints, every interpretation, all domains and thresholds); prohibited / required / aggregate-vs-aggregate corollaries per '
+             'binding of the whenever labels; the value of #count / #sum / #max / #min is a function of the SET of qualifying tuples; a '
+             'comparison and the negation printed for `required` are complementary for every value incl. empty #max / #min; locality of '
+             'aggregate variables; every aggregate word of the live grammar maps to the function it means and is printed with that function\'s symbol.',
+        note='Trusted: Lean kernel; clingo\'s aggregate semantics = Asp/Sem.lean Agg.holds (validated per run by the search); the generator\'s '
+             'resolved form (checked per run by the rule-by-rule correspondence). Aggregates occur in constraints only. `required … between` '
+             'on an aggregate is a genuine defect (finding F1). Forms covered: active / passive / unary counts, attribute and key sum / max / '
+             'min with or without a bound key, every comparison phrase, between, aggregate-vs-aggregate; `for each` discriminants and '
+             '`such that` are not modelled.',
+        design='DESIGN.md §6 C02'),
 }
 
 NOT_YET = {}
